@@ -81,6 +81,130 @@ fn read_node(ctx: &mut DeserializationContext<'_>, made: &mut Vec<Rc<Node>>) -> 
     }
 }
 
+// ---- the same codec as a field of derived records: reference numbering must continue across fields, and back-references
+// written while a chunk buffer is active must land in that chunk
+
+thread_local! {
+    static MADE: RefCell<Vec<Rc<Node>>> = const { RefCell::new(Vec::new()) };
+}
+
+pub struct G(pub Rc<Node>);
+
+impl BinarySerializer for G {
+    fn serialize<O: BinaryOutput>(&self, ctx: &mut SerializationContext<O>) -> desert::Result<()> {
+        write_node(&self.0, ctx)
+    }
+}
+
+impl BinaryDeserializer for G {
+    fn deserialize(ctx: &mut DeserializationContext<'_>) -> desert::Result<Self> {
+        let mut made = Vec::new();
+        let r = read_node(ctx, &mut made);
+        MADE.with(|m| m.borrow_mut().extend(made));
+        r.map(G)
+    }
+}
+
+mod holder_types {
+    use super::{new_node, G};
+    use desert::BinaryCodec;
+
+    /// version-0 record: two graph fields (the second may cite nodes of the first) between ordinary fields
+    #[derive(BinaryCodec)]
+    pub struct HolderV0 {
+        pub tag: u8,
+        pub g: G,
+        pub h: G,
+        pub tail: String,
+    }
+
+    /// evolved record: the graph fields live in chunks of their own
+    #[derive(BinaryCodec)]
+    #[evolution(FieldAdded("g", G(new_node(0))), FieldAdded("h", G(new_node(0))))]
+    pub struct HolderEvolved {
+        pub tag: u8,
+        pub g: G,
+        pub h: G,
+        pub tail: String,
+    }
+}
+
+/// bytes of a second offer of the whole graph after it has been written once: the root's number
+fn second_offer_bytes() -> Vec<u8> {
+    vu_bytes(1)
+}
+
+fn embedded_graph(acc: &mut Acc, shape: &Shape) {
+    use holder_types::*;
+    let (g_bytes, reachable) = model(shape);
+    let tail = "tail".to_string();
+    let tail_bytes = [8u8, b't', b'a', b'i', b'l'];
+    let nodes = build(shape);
+    let detail = |what: &str, got: String| {
+        J::obj().with("check", J::s("C10")).with("mode", J::s("graph_in_record")).with("edges", J::s(format!("{:?}", shape.edges))).with("what", J::s(what)).with("got", J::s(got))
+    };
+    acc.case(Some(sig(&[b"embedded", format!("{shape:?}").as_bytes()])));
+    // field h offers the root again: all of it has been written, so it is one back-reference
+    let v0 = HolderV0 { tag: 9, g: G(nodes[0].clone()), h: G(nodes[0].clone()), tail: tail.clone() };
+    let ev = HolderEvolved { tag: 9, g: G(nodes[0].clone()), h: G(nodes[0].clone()), tail: tail.clone() };
+    let exp0: Vec<u8> = [&[0u8, 9][..], &g_bytes[..], &second_offer_bytes()[..], &tail_bytes[..]].concat();
+    let c0: Vec<u8> = [&[9u8][..], &tail_bytes[..]].concat();
+    let exp1: Vec<u8> = [
+        &[2u8][..],
+        &vi_bytes(c0.len() as i32)[..],
+        &vi_bytes(g_bytes.len() as i32)[..],
+        &vi_bytes(second_offer_bytes().len() as i32)[..],
+        &c0[..],
+        &g_bytes[..],
+        &second_offer_bytes()[..],
+    ]
+    .concat();
+    let (w0, _) = monitored(None, || desert::serialize_to_byte_vec(&v0).map_err(|e| classify(&e)));
+    let (w1, _) = monitored(None, || desert::serialize_to_byte_vec(&ev).map_err(|e| classify(&e)));
+    drop(v0);
+    drop(ev);
+    dismantle(&nodes);
+    for (name, written, expected) in [("version-0 record", &w0, &exp0), ("evolved record", &w1, &exp1)] {
+        match written {
+            Call::Ok(b) if b == expected => acc.count("embedded_graph_bytes_ok"),
+            Call::Ok(b) => acc.violation(format!("C10|embedded|bytes|{name}"), detail("bytes of a graph written as a record field differ from the model", short(b)).with("expected", J::s(short(expected)))),
+            other => acc.violation(format!("C10|embedded|encode|{}", other.class()), detail("encoding failed", other.class())),
+        }
+    }
+    // decode both: g isomorphic, h the very same object as g
+    let check = |acc: &mut Acc, name: &str, ok: Result<(Rc<Node>, Rc<Node>, String, u8), String>| match ok {
+        Ok((g, h, t, tag)) => {
+            if let Err(why) = isomorphic(shape, &g) {
+                acc.violation(format!("C10|embedded|shape|{name}"), detail("graph decoded from a record field is not isomorphic", why));
+            } else if !Rc::ptr_eq(&g, &h) {
+                acc.violation(format!("C10|embedded|sharing|{name}"), detail("the second field cites the first field's root but decodes to another object", String::new()));
+            } else if t != "tail" || tag != 9 {
+                acc.violation(format!("C10|embedded|neighbours|{name}"), detail("neighbouring fields disturbed", format!("{tag} {t:?}")));
+            } else {
+                acc.count("embedded_graph_rebuilt");
+            }
+        }
+        Err(e) => acc.violation(format!("C10|embedded|decode|{name}"), detail("decoding failed", e)),
+    };
+    if let Call::Ok(b) = &w0 {
+        let (r, _) = monitored(None, || desert::deserialize::<HolderV0>(b).map_err(|e| classify(&e)));
+        check(acc, "version-0 record", match r {
+            Call::Ok(x) => Ok((x.g.0.clone(), x.h.0.clone(), x.tail.clone(), x.tag)),
+            other => Err(other.class()),
+        });
+    }
+    if let Call::Ok(b) = &w1 {
+        let (r, _) = monitored(None, || desert::deserialize::<HolderEvolved>(b).map_err(|e| classify(&e)));
+        check(acc, "evolved record", match r {
+            Call::Ok(x) => Ok((x.g.0.clone(), x.h.0.clone(), x.tail.clone(), x.tag)),
+            other => Err(other.class()),
+        });
+    }
+    let made: Vec<Rc<Node>> = MADE.with(|m| std::mem::take(&mut *m.borrow_mut()));
+    dismantle(&made);
+    let _ = reachable;
+}
+
 /// graph model: DFS pre-order numbering from the root; expected bytes; number of reachable nodes
 fn model(shape: &Shape) -> (Vec<u8>, usize) {
     fn go(shape: &Shape, i: usize, ids: &mut Vec<Option<u32>>, next: &mut u32, out: &mut Vec<u8>) {
@@ -286,6 +410,7 @@ pub fn c10(ctx: &mut Ctx, acc: &mut Acc) -> i32 {
         let mut rng = ctx.rng_for(0xC10, "graph", r);
         let shape = random_shape(&mut rng);
         one_graph(acc, &shape, "random");
+        embedded_graph(acc, &shape);
     }
     // wide graphs: object numbers that need two and three varint bytes (>= 128, >= 16384)
     if !cfg!(miri) {
